@@ -21,6 +21,12 @@ type Action struct {
 	Enh    string `json:"enh,omitempty"`  // enhanced status code put at the start of the text
 	Text   string `json:"text,omitempty"` // "\n" separates lines of a multi-line reply
 	DripNs int64  `json:"dripNs,omitempty"`
+	// StallWhere, if set, makes the network go dead towards the client at a byte position
+	// relative to this reply: "start" (nothing of the reply arrives), "mid" (half of it), "end"
+	// (the reply arrives, plus StallExtra bytes of whatever the server sends next). The server
+	// itself carries on as if nothing had happened.
+	StallWhere string `json:"stallWhere,omitempty"`
+	StallExtra int64  `json:"stallExtra,omitempty"`
 }
 
 // Rule attaches an Action to the Nth occurrence (1-based; 0 = every) of a command on a connection.
@@ -187,6 +193,7 @@ type Session struct {
 	stalled bool
 	closed  bool
 	mailUTF8 bool
+	stallAfterWrite int64
 }
 
 func (s *Session) state() string {
@@ -422,7 +429,29 @@ func (s *Session) reply(cmdSeq int, verb string, nth int, act Action, defCode in
 			s.pipe.DripS2CFrom(s.pipe.S2CLen(), dt)
 		}
 	}
+	if act.StallWhere != "" {
+		start := s.pipe.S2CLen()
+		n := int64(wire.Len())
+		switch act.StallWhere {
+		case "start":
+			s.pipe.StallS2CFrom(start)
+		case "mid":
+			s.pipe.StallS2CFrom(start + n/2)
+		case "end":
+			// for TLS the record is longer than the plaintext; "end" then means: this record and
+			// StallExtra further bytes
+			if s.TLS {
+				s.stallAfterWrite = act.StallExtra + 1
+			} else {
+				s.pipe.StallS2CFrom(start + n + act.StallExtra)
+			}
+		}
+	}
 	_, err := io.WriteString(s.conn, wire.String())
+	if s.stallAfterWrite > 0 {
+		s.pipe.StallS2CFrom(s.pipe.S2CLen() + s.stallAfterWrite - 1)
+		s.stallAfterWrite = 0
+	}
 	e := Event{Kind: "reply", Verb: verb, Nth: nth, ReplyTo: cmdSeq, Code: code, Enh: enh, Text: full, Token: token, Action: kind, EndOff: s.pipe.S2CLen()}
 	e.Conn, e.Step, e.TimeNs, e.TLS, e.State, e.Seq = s.ID, s.srv.K.Steps, s.srv.K.Now(), s.TLS, s.state(), seq
 	s.srv.H.mu.Lock()
